@@ -661,7 +661,8 @@ type vc29Proto struct {
 	mutated bool
 }
 
-func (u *vc29U) commitProto() vc29Proto {
+// forced: 0 random; 1 Merkle only; 2 Merkle + both vector commitments; 3 flat only
+func (u *vc29U) commitProto(forced int) vc29Proto {
 	r := u.r
 	p := config.Consensus[protocol.ConsensusFuture]
 	v := vc29Proto{ok: true, ctype: int(p.PaysetCommit), s256: p.EnableSHA256TxnCommitmentHeader, s512: p.EnableSha512BlockHash}
@@ -679,12 +680,20 @@ func (u *vc29U) commitProto() vc29Proto {
 	if r.Intn(4) == 0 {
 		v.s512 = !v.s512
 	}
+	switch forced {
+	case 1:
+		v.ctype, v.s256, v.s512 = int(config.PaysetCommitMerkle), false, false
+	case 2:
+		v.ctype, v.s256, v.s512 = int(config.PaysetCommitMerkle), true, true
+	case 3:
+		v.ctype, v.s256, v.s512 = int(config.PaysetCommitFlat), false, false
+	}
 	p.PaysetCommit = config.PaysetCommitType(v.ctype)
 	p.EnableSHA256TxnCommitmentHeader = v.s256
 	p.EnableSha512BlockHash = v.s512
 	v.name = protocol.ConsensusVersion(fmt.Sprintf("verif-c29-%d-%v-%v", v.ctype, v.s256, v.s512))
 	config.Consensus[v.name] = p
-	if r.Intn(40) == 0 {
+	if forced == 0 && r.Intn(40) == 0 {
 		v.name = "verif-c29-unknown-protocol"
 		v.ok = false
 	}
@@ -737,7 +746,11 @@ func (u *vc29U) blockCases(out *vOut, nBlocks, variants int) {
 			t.Fatalf("generated block does not match its own header")
 		}
 		for v := 0; v < variants; v++ {
-			pv := u.commitProto()
+			forced := 0
+			if v >= 1 && v <= 3 {
+				forced = v
+			}
+			pv := u.commitProto(forced)
 			blk := base
 			blk.Payset = append(transactions.Payset{}, base.Payset...)
 			blk.CurrentProtocol = pv.name
@@ -752,12 +765,19 @@ func (u *vc29U) blockCases(out *vOut, nBlocks, variants int) {
 			}
 			mutName := "none"
 			hdrMut := false
-			if r.Intn(100) < 70 && v > 0 {
+			if (r.Intn(100) < 70 || forced > 0) && v > 0 {
 				i := 0
 				if len(blk.Payset) > 0 {
 					i = r.Intn(len(blk.Payset))
 				}
-				switch x := r.Intn(15); {
+				x := r.Intn(15)
+				switch forced {
+				case 1, 2:
+					x = 5 + r.Intn(2) // only the SignedTxnInBlock changes, not the transaction
+				case 3:
+					x = r.Intn(3)
+				}
+				switch {
 				case x == 0 && len(blk.Payset) > 1:
 					j := (i + 1 + r.Intn(len(blk.Payset)-1)) % len(blk.Payset)
 					blk.Payset[i], blk.Payset[j] = blk.Payset[j], blk.Payset[i]
